@@ -90,6 +90,98 @@ func nilAt(v ssa.Value, at *ssa.BasicBlock) NilFact {
 	return NilUnknown
 }
 
+// strFact: is the string v certainly empty / non-empty where control is in block at?
+// (constants; concatenation with a non-empty part; filepath.Join with a non-empty element;
+// filepath.Clean, never empty; a dominating comparison with "")
+func strFact(v ssa.Value, at *ssa.BasicBlock, depth int) NilFact {
+	if depth > 6 {
+		return NilUnknown
+	}
+	if s, ok := ConstString(v); ok {
+		if s == "" {
+			return IsNil
+		}
+		return NonNil
+	}
+	switch x := v.(type) {
+	case *ssa.BinOp:
+		if x.Op == token.ADD && (strFact(x.X, at, depth+1) == NonNil || strFact(x.Y, at, depth+1) == NonNil) {
+			return NonNil
+		}
+	case *ssa.Phi:
+		var f NilFact = -1
+		for _, e := range x.Edges {
+			ef := strFact(e, at, depth+1)
+			if f == -1 {
+				f = ef
+			} else if f != ef {
+				return NilUnknown
+			}
+		}
+		if f > 0 {
+			return f
+		}
+	case *ssa.Call:
+		if callee := x.Call.StaticCallee(); callee != nil {
+			switch callee.String() {
+			case "path/filepath.Clean":
+				return NonNil
+			case "path/filepath.Join":
+				if sl, ok := x.Call.Args[0].(*ssa.Slice); ok {
+					if arr, ok := sl.X.(*ssa.Alloc); ok && arr.Referrers() != nil {
+						for _, r := range *arr.Referrers() {
+							ia, ok := r.(*ssa.IndexAddr)
+							if !ok || ia.Referrers() == nil {
+								continue
+							}
+							for _, r2 := range *ia.Referrers() {
+								if st, ok := r2.(*ssa.Store); ok && st.Addr == ssa.Value(ia) && strFact(st.Val, at, depth+1) == NonNil {
+									return NonNil
+								}
+							}
+						}
+					}
+				}
+			}
+		}
+	}
+	// a dominating comparison with ""
+	cur := at
+	for steps := 0; cur != nil && steps < 64; steps++ {
+		d := Idom(cur)
+		if d == nil {
+			break
+		}
+		if iff, ok := d.Instrs[len(d.Instrs)-1].(*ssa.If); ok && d.Succs[0] != d.Succs[1] {
+			if b, ok := iff.Cond.(*ssa.BinOp); ok && (b.Op == token.EQL || b.Op == token.NEQ) {
+				var other ssa.Value
+				if s, isC := ConstString(b.Y); isC && s == "" {
+					other = b.X
+				} else if s, isC := ConstString(b.X); isC && s == "" {
+					other = b.Y
+				}
+				if other == v {
+					emptySucc := 0
+					if b.Op == token.NEQ {
+						emptySucc = 1
+					}
+					for k := 0; k < 2; k++ {
+						sc := d.Succs[k]
+						if len(sc.Preds) == 1 && Dominates(sc, at) {
+							if k == emptySucc {
+								return IsNil
+							}
+							return NonNil
+						}
+					}
+				}
+			}
+		}
+		cur = d
+	}
+	return NilUnknown
+}
+
 type tri int
 
 const (
@@ -214,6 +306,28 @@ func threadOne(fn *ssa.Function) bool {
 				case IsNilConst(x.X):
 					other = x.Y
 				default:
+					// comparison with the empty string
+					var sv ssa.Value
+					if cs, isC := ConstString(x.Y); isC && cs == "" {
+						sv = x.X
+					} else if cs, isC := ConstString(x.X); isC && cs == "" {
+						sv = x.Y
+					}
+					if sv == nil {
+						return unknown
+					}
+					switch strFact(resolve(sv, i), C.Preds[i], 0) {
+					case IsNil:
+						if x.Op == token.EQL {
+							return yes
+						}
+						return no
+					case NonNil:
+						if x.Op == token.EQL {
+							return no
+						}
+						return yes
+					}
 					return unknown
 				}
 				other = resolve(other, i)
